@@ -622,8 +622,8 @@ def run(rep, tier):
             'every frozen object reachable from each base controller, every read-only parameter of every problem instance; '
             'C: every subset of the controller pool in both insertion orders, non-trivial iff >= 2 classes. All cases are distinct by construction.',
             'samples': [
-                {'grammar_shape': {ENTRIES[i][0]: n for i, n in enumerate(order[0]) if n}},
-                {'fault': cases[0]},
+                _grammar_sample(order),
+                {'fault_case': ['pfasst3', ['set', 'sweeper_params', 'quad_type', 'GAUSS', 1]], 'outcome': [r['rejected_with'] for r in fres if r['base'] == 'pfasst3' and r['fault'] == ['set', 'sweeper_params', 'quad_type', 'GAUSS', 1]]},
                 {'controllers': [POOLNAMES[i] for i in ccases[0][0]], 'reverse': ccases[0][1], 'num_procs': ccases[0][2]},
             ],
             'exhaustive': True,
@@ -641,6 +641,17 @@ def run(rep, tier):
             },
         }
     )
+
+
+def _grammar_sample(order):
+    shape = tuple(4 if i == 2 else 2 if i == 6 else 0 for i in range(len(ENTRIES)))  # dt: 4 entries, QI: 2 entries
+    assert shape in set(order)
+    _, expected = make_description(shape)
+    return {
+        'grammar_shape': {ENTRIES[i][0]: n for i, n in enumerate(shape) if n},
+        'expected_levels': len(expected),
+        'expected_per_level': [{k: e[k] for k in ('level_params.dt', 'level_params.nsweeps', 'sweeper_params.num_nodes', 'sweeper_params.QI', 'sweeper_class')} for e in expected],
+    }
 
 
 def grammar_case_wrapped(shape):
